@@ -734,6 +734,8 @@ Print Assumptions C15_wide_hypotheses_inhabited.
        <NaiveDateTime as Datelike>::with_month0; <NaiveDateTime as Datelike>::with_day;
        <NaiveDateTime as Datelike>::with_day0; <NaiveDateTime as Datelike>::with_ordinal;
        <NaiveDateTime as Datelike>::with_ordinal0;
+     owner: C14_to_fixed_offset_spec
+       Parsed::to_fixed_offset;
      owner: C19_members
        WeekdaySet::single_day; WeekdaySet::first; WeekdaySet::last;
      owner: C19_set_display
@@ -828,7 +830,7 @@ Print Assumptions C15_wide_hypotheses_inhabited.
        NaiveDate::parse_and_remainder; NaiveDateTime::parse_from_str; NaiveDateTime::parse_and_remainder;
        NaiveTime::parse_and_remainder;
      none: partial -- goes through C15_to_naive_datetime_with_offset_total; the final zone step: correspondence + judge
-       Parsed::to_fixed_offset; Parsed::to_datetime; Parsed::to_datetime_with_timezone;
+       Parsed::to_datetime; Parsed::to_datetime_with_timezone;
      none: pattern match only; no trapping step in the model
        MappedLocalTime<T>::single; MappedLocalTime<T>::earliest; MappedLocalTime<T>::latest;
 
